@@ -229,6 +229,25 @@ func checkC17Req(t *testing.T, rq *Request, rec *Recorder) []Diff {
 			}
 		}
 	}
+	// nothing derived from a private address may be left anywhere in the redacted document: the scripted resolver
+	// gives every address a name of its own
+	privNames := map[string]string{}
+	for _, r := range off.Traceroute.Runs {
+		for _, h := range r.Hops {
+			if isPrivateRef(h.IPAddress) {
+				privNames[ptrName(h.IPAddress.String())] = h.IPAddress.String()
+			}
+		}
+	}
+	for i, r := range on.Traceroute.Runs {
+		for _, h := range r.Hops {
+			for _, n := range h.ReverseDns {
+				if a, bad := privNames[n]; bad {
+					add("private-name-left", "flag on: run %d hop TTL %d (%v) carries the name %q, which was looked up for the private address %s", i, h.TTL, h.IPAddress, n, a)
+				}
+			}
+		}
+	}
 	// with the flag off the scripted private routers must be visible
 	rec.Case(scenarioKey(rq), nPriv >= 1 && nPub >= 1, rq, fmt.Sprintf("http:%v", rq.HTTP), "protocol:"+rq.P.Protocol)
 	return ds
@@ -274,7 +293,15 @@ func TestC17Request(t *testing.T) {
 			s.Hops = map[int]HopSpec{rapid.IntRange(1, rq.P.MaxTTL).Draw(rt, "hole_ttl"): {Silent: true}}
 		}
 		rq.Scripts = []FlowScript{s}
-		rq.DNSDefault = DNSScript{Names: []string{"router.example."}}
+		// every address has a name of its own, and some addresses have none (the lookup fails): a name in the
+		// redacted document can then be traced to the address it was looked up for
+		rq.DNSDefault = DNSScript{Names: []string{"router.example."}, PerAddr: true}
+		rq.DNS = map[string]DNSScript{}
+		for ttl := 1; ttl <= rq.P.MaxTTL; ttl++ {
+			if oneOf(rt, fmt.Sprintf("dns_fails%d", ttl), false, false, false, true) && !isPrivateRef(net.ParseIP(s.Addrs[ttl])) {
+				rq.DNS[s.Addrs[ttl]] = DNSScript{Err: true, NotFound: ttl%2 == 0}
+			}
+		}
 		// the caller may go away while the runs are in flight; the udp and tcp engines finish anyway, and what is
 		// then returned as a success must be redacted like any other document
 		if oneOf(rt, "caller_cancels", false, false, true) {
